@@ -115,6 +115,15 @@ def handle1 : List String → String
     | some txs =>
       s!"r={hexBA (mroot H zeroHash (leaves false txs))} w={hexBA (mroot H zeroHash (leaves true txs))} again=1"
     | none => "bad-op"
+  | ["sanity", root, _, _, txs] =>
+    match hexToList? root, parseTxs? txs with
+    | some root, some txs =>
+      let ids := txs.map (fun t => (txid t).toList)
+      let computed := some (mroot H zeroHash (leaves false txs)).toList
+      match checkBlockSanityTail root computed ids (txs.map countSigOps) with
+      | some .ok => "ok" | some .badMerkle => "err:badMerkle" | some .dupTx => "err:dupTx"
+      | some .tooManySigOps => "err:tooManySigOps" | none => "panic"
+    | _, _ => "bad-op"
   | ["radd", n, roots, h] =>
     match n.toNat?, parseList "," hexToList? roots, hexToList? h with
     | some n, some roots, some h =>
